@@ -100,6 +100,14 @@ func containsAny(s, chars string) bool {
 	return false
 }
 
+func repeat(s string, n int) string {
+	out := make([]byte, 0, len(s)*n)
+	for i := 0; i < n; i++ {
+		out = append(out, s...)
+	}
+	return string(out)
+}
+
 func genLikePattern(t *rapid.T, s string, label string) string {
 	esc := func(x string) string {
 		out := ""
@@ -121,6 +129,9 @@ func genLikePattern(t *rapid.T, s string, label string) string {
 		k := rapid.IntRange(0, len(s)).Draw(t, label+"_cut")
 		return "*" + esc(s[k:])
 	case 3:
+		if len(s) > 30 {
+			return "*" + esc(s[len(s)-18:])
+		}
 		return "*"
 	case 4:
 		return esc(s) + "x"
@@ -216,6 +227,21 @@ func GenData(t *rapid.T, label string) val.V {
 	keys := []string{"a", "b", "c", "n", "s", "l", "m", "foo", "with space", "é"}
 	cfg := val.Cfg{Depth: 3, MaxLen: 4, Keys: keys, SafeInts: true, NoLink: rapid.IntRange(0, 3).Draw(t, label+"_nolink") > 0}
 	v := val.GenMap(t, cfg, 3)
+	if rapid.IntRange(0, 5).Draw(t, label+"_longstr") == 0 {
+		// a long, self-overlapping string: the expensive case for a backtracking glob matcher
+		n := rapid.SampledFrom([]int{40, 60, 200, 1200}).Draw(t, label+"_longn")
+		ls := val.Str(repeat("a", n) + rapid.SampledFrom([]string{"b", "", "ab", "*"}).Draw(t, label+"_longtail"))
+		replaced := false
+		for i := range v.M {
+			if v.M[i].K == "s" {
+				v.M[i].V = ls
+				replaced = true
+			}
+		}
+		if !replaced {
+			v.M = append(v.M, val.KV{K: "s", V: ls})
+		}
+	}
 	if rapid.IntRange(0, 2).Draw(t, label+"_addlist") > 0 {
 		// make sure a list is present for the quantifiers
 		n := rapid.IntRange(0, 4).Draw(t, label+"_ln")
